@@ -214,3 +214,9 @@ package codec
 //@ assume v.IdxHeaderSize == 4 because "V2 values are only the package-level v2 (IdxHeaderSize 4); the field is never written outside the package initialiser"
 //@ assume at call ReadAll#0: len(b) <= 4294967295 because "scope: index files are far below 4 GiB (4 bytes per entry of one segment)"
 //@ modifies *
+
+//@ func V2.GetIndexHeaderSize
+//@ property C10
+//@ stable
+//@ assume v.IdxHeaderSize == 4 because "V2 values are only the package-level v2 (IdxHeaderSize 4); the field is never written outside the package initialiser"
+//@ ensures result == v.IdxHeaderSize && result == 4
